@@ -166,6 +166,13 @@ def sub(ctx, p):
     return build(p, ctx)
 
 
+def _alt(*args):
+    """Deterministic choice between two spellings of the same call (positional / keyword / documented default left out),
+    taken from the arguments themselves so that a replay makes the same choice."""
+    import zlib
+    return zlib.crc32(repr(args).encode()) & 1
+
+
 # per-item operators
 op('map', lambda c, f: rs.ops.map(F(f)), lambda f: M.Map(F(f)))
 op('starmap', lambda c, f: rs.ops.starmap(F(f)), lambda f: M.Map(lambda t, g=F(f): g(*t)))
@@ -188,9 +195,10 @@ FUNCS['pt_sum'] = lambda p: (p.a, p.b)
 op('tap', lambda c, name: tap(c.log(name), states=c.states), lambda name: M.Map(lambda x: x))
 
 # folds
-op('scan', lambda c, f, seed, reduce=False, term=None: rs.ops.scan(F(f), seed_arg(seed), reduce=reduce, terminator=F(term)),
+op('scan', lambda c, f, seed, reduce=False, term=None: (rs.ops.scan(F(f), seed_arg(seed), reduce, F(term)) if _alt(f, seed, reduce, term) else
+                                                     rs.ops.scan(accumulator=F(f), seed=seed_arg(seed), reduce=reduce, terminator=F(term))),
    lambda f, seed, reduce=False, term=None: M.Scan(F(f), seed_factory(seed), reduce, F(term)))
-op('count', lambda c, reduce=False: rs.ops.count(reduce=reduce),
+op('count', lambda c, reduce=False: (rs.ops.count() if not reduce else rs.ops.count(True)) if _alt('count', reduce) else rs.ops.count(reduce=reduce),
    lambda reduce=False: M.Scan(lambda a, x: a + 1, lambda: 0, reduce, None))
 op('sum', lambda c, reduce=False: rs.math.sum(reduce=reduce),
    lambda reduce=False: M.Scan(lambda a, x: a + x, lambda: 0.0, reduce, None))
@@ -209,24 +217,29 @@ op('to_array', lambda c, tc='q': rs.data.to_array(tc), lambda tc='q': M.ToList(l
 # sequence operators
 op('first', lambda c: rs.ops.first(), lambda: M.Take(1))
 op('last', lambda c: rs.ops.last(), lambda: M.Last())
-op('take', lambda c, n: rs.ops.take(n), lambda n: M.Take(n))
+op('take', lambda c, n: rs.ops.take(count=n) if _alt('take', n) else rs.ops.take(n), lambda n: M.Take(n))
 op('distinct', lambda c, f=None: rs.ops.distinct(F(f)), lambda f=None: M.Distinct(F(f)))
 op('duc', lambda c, f=None: rs.ops.distinct_until_changed(F(f)), lambda f=None: M.DistinctUntilChanged(F(f)))
-op('lag', lambda c, n: rs.data.lag(n), lambda n: M.Lag(n))
-op('pad_start', lambda c, n, v=None: rs.data.pad_start(n, v), lambda n, v=None: M.PadStart(n, v))
-op('pad_end', lambda c, n, v=None: rs.data.pad_end(n, v), lambda n, v=None: M.PadEnd(n, v))
+op('lag', lambda c, n: (rs.data.lag() if n == 1 else rs.data.lag(size=n)) if _alt('lag', n) else rs.data.lag(n), lambda n: M.Lag(n))
+op('pad_start', lambda c, n, v=None: (rs.data.pad_start(size=n, value=v) if v is not None else rs.data.pad_start(n)) if _alt('ps', n, v) else rs.data.pad_start(n, v),
+   lambda n, v=None: M.PadStart(n, v))
+op('pad_end', lambda c, n, v=None: (rs.data.pad_end(size=n, value=v) if v is not None else rs.data.pad_end(n)) if _alt('pe', n, v) else rs.data.pad_end(n, v),
+   lambda n, v=None: M.PadEnd(n, v))
 op('start_with', lambda c, p: rs.ops.start_with(list(p)), lambda p: M.StartWith(list(p)))
 # the padding given as another iterable than a list (the items are what iterating it yields)
 PADDINGS = {'tuple': lambda: (7, 8), 'range': lambda: range(2), 'str': lambda: 'ab', 'deque': lambda: __import__('collections').deque([7, 8])}
 op('start_with_as', lambda c, kind: rs.ops.start_with(PADDINGS[kind]()), lambda kind: M.StartWith(list(PADDINGS[kind]())))
-op('batch', lambda c, n: rs.data.batch(n), lambda n: M.Batch(n))
+op('batch', lambda c, n: rs.data.batch(batch_size=n) if _alt('batch', n) else rs.data.batch(n), lambda n: M.Batch(n))
 op('sort', lambda c, f=None, rev=False: rs.data.sort(key=F(f) or (lambda i: i), reverse=rev),
    lambda f=None, rev=False: M.Sort(F(f), rev))
 
 # higher order
-op('group_by', lambda c, f, p: rs.ops.group_by(F(f), sub(c, p)), lambda f, p: M.GroupBy(F(f), lambda: model(p)))
-op('roll', lambda c, w, s, p: rs.data.roll(w, s, sub(c, p)), lambda w, s, p: M.Roll(w, s, lambda: model(p)))
-op('split', lambda c, f, p: rs.data.split(F(f), sub(c, p)), lambda f, p: M.Split(F(f), lambda: model(p)))
+op('group_by', lambda c, f, p: rs.ops.group_by(key_mapper=F(f), pipeline=sub(c, p)) if _alt('g', f, p) else rs.ops.group_by(F(f), sub(c, p)),
+   lambda f, p: M.GroupBy(F(f), lambda: model(p)))
+op('roll', lambda c, w, s, p: rs.data.roll(window=w, stride=s, pipeline=sub(c, p)) if _alt('r', w, s, p) else rs.data.roll(w, s, sub(c, p)),
+   lambda w, s, p: M.Roll(w, s, lambda: model(p)))
+op('split', lambda c, f, p: rs.data.split(predicate=F(f), pipeline=sub(c, p)) if _alt('s', f, p) else rs.data.split(F(f), sub(c, p)),
+   lambda f, p: M.Split(F(f), lambda: model(p)))
 
 
 def _ts_build(c, active, inactive, closing, include, p, tm='ident'):
@@ -238,7 +251,8 @@ def _ts_build(c, active, inactive, closing, include, p, tm='ident'):
 op('time_split', _ts_build,
    lambda active, inactive, closing, include, p, tm='ident':
    M.TimeSplit(F(tm), active, inactive, F(closing), include, lambda: model(p)))
-op('tee_map', lambda c, join, *branches: rs.ops.tee_map(*[sub(c, b) for b in branches], join=join),
+op('tee_map', lambda c, join, *branches: (rs.ops.tee_map(*[sub(c, b) for b in branches]) if join == 'zip' and _alt('t', branches) else
+                                         rs.ops.tee_map(*[sub(c, b) for b in branches], join=join)),
    lambda join, *branches: M.TeeMap(join, [(lambda b=b: model(b)) for b in branches]))
 
 # error handlers (mux only; no list model)
